@@ -18,7 +18,7 @@ def run(chk):
         if v:
             chk.violation(v["sig"], v["desc"], dict(kind="panic"))
             return
-        raise vlib.MachineryError("C11 driver failed:\n" + t["out"][-3500:])
+        raise vlib.driver_failed("C11 driver failed", t["out"])
     res = json.load(open(resf))
     for v in res["violations"] or []:
         chk.violation(v["sig"], v["desc"], dict(kind="c11", detail=v))
@@ -31,7 +31,7 @@ def run(chk):
         if v:
             chk.violation("client-level:" + v["sig"], v["desc"], dict(kind="panic"))
             return
-        raise vlib.MachineryError("C11 client-level driver failed:\n" + t2["out"][-3500:])
+        raise vlib.driver_failed("C11 client-level driver failed", t2["out"])
     res2 = json.load(open(resf2))
     for v in res2["violations"] or []:
         chk.violation(v["sig"], v["desc"], dict(kind="c11-client", detail=v))
